@@ -204,8 +204,6 @@ class Agent:
             cur = [o for o, _, _ in vbs[nr:]]
             rep = []
             for _ in range(min(mr, 120)):       # an agent may return fewer repetitions than asked for (RFC 3416 4.2.3)
-                if rep and all(v == EOMV for _, v in rep[-len(cur):]):
-                    break                      # a row of endOfMibView only: nothing more to say
                 nxt = []
                 for oid in cur:
                     s = self.succ(oid)
